@@ -249,12 +249,29 @@ def scenario(sseed, kind, mode, res, crash_at=None, second=None, maxlen=60):
     tags = collections.Counter()
     with tempdir("kto") as d, tempdir("kto2") as d2:
         specs = gen.rand_specs(R, finite=(kind == "grid"), nonfixed=(kind == "bayes"))
-        o = gen.make_oracle(R, kind, specs, d)
+        # growth: tuners of random / Hyperband searches may report entries their build function declared (grid: known
+        # findings F5, Bayes: scikit-learn rejects a grown space - both outside this suite); tuned or not tuned
+        grows = kind in ("random", "hyperband") and R.random() < 0.5
+        tune_new = (R.random() < 0.6) if grows else True
+        o = gen.make_oracle(R, kind, specs, d, **({"tune_new_entries": False, "allow_new_entries": True} if not tune_new else {}))
+        hmap = {}
+        ndecl = [0]
+
+        def hkey(oracle, values):
+            """canonical text of what `_compute_values_hash` hashes (Hyperband leaves the tuner/* entries out)"""
+            vs = {k: v for k, v in values.items() if not (kind == "hyperband" and k in ("tuner/epochs", "tuner/initial_epoch", "tuner/bracket", "tuner/round"))}
+            hk = canon_vals(vs)
+            hmap[oracle._compute_values_hash(dict(values))] = hk
+            return hk
+
+        def tried_str(oracle):
+            return "tried " + ";".join(sorted({hmap.get(h, "?" + h) for h in oracle._tried_so_far}))
         doc["config"] = dict(max_trials=o.max_trials, max_retries=o.max_retries_per_trial,
                              max_consec=o.max_consecutive_failed_trials, direction=o.objective.direction, nspace=len(specs))
         width = len(str(o.max_trials))
         lines.append(dict(suite="oracle", op="init", max_trials=o.max_trials, max_retries=o.max_retries_per_trial,
-                          max_consec=o.max_consecutive_failed_trials, minimize=o.objective.direction == "min", width=width))
+                          max_consec=o.max_consecutive_failed_trials, minimize=o.objective.direction == "min", width=width,
+                          tune_new=tune_new))
         expect.append("ok")
         mon = Monitors(o)
         hold = {}
@@ -289,7 +306,7 @@ def scenario(sseed, kind, mode, res, crash_at=None, second=None, maxlen=60):
                 if r is None:
                     return dict(status="STOPPED")
                 if r["status"] == "RUNNING":
-                    return dict(status="RUNNING", values=canon_vals(r["values"] or {}))
+                    return dict(status="RUNNING", values=canon_vals(r["values"] or {}), hkey=hkey(o, r["values"] or {}))
                 return dict(status=r["status"])
 
             def do_reload(after_crash):
@@ -410,9 +427,20 @@ def scenario(sseed, kind, mode, res, crash_at=None, second=None, maxlen=60):
                             t.status = {"INV": "INVALID", "FAIL": "FAILED"}[oc]
                         st_req = t.status
                         tags["end-" + oc] += 1
-                        lines.append(dict(suite="oracle", op="end", id=int(t.trial_id), status=st_req))
                         aborted = False
                         t_arg = t
+                        declare = None
+                        if grows and R.random() < 0.4 and ndecl[0] < 4:
+                            ndecl[0] += 1
+                            nm = f"n{ndecl[0]}"
+                            cond_on = R.choice([None] + [p_ for p_ in t.hyperparameters.space if p_.name in t.hyperparameters.values and not p_.conditions and not p_.name.startswith("tuner/")])
+
+                            def declare(hp_, nm=nm, cond_on=cond_on):
+                                if cond_on is None:
+                                    hp_.Boolean(nm)
+                                else:
+                                    hp_.Int(nm, 0, 3, parent_name=cond_on.name, parent_values=[hp_.values[cond_on.name]])
+                            tags["reported-new-entry"] += 1
                         if R.random() < 0.5:
                             # what a remote worker (or any caller that rebuilt the trial from its state) hands back: a copy,
                             # not the oracle's own object - every decision must be taken on, and recorded in, the stored trial
@@ -420,6 +448,13 @@ def scenario(sseed, kind, mode, res, crash_at=None, second=None, maxlen=60):
                             t_arg = trial_module.Trial(hyperparameters=t.hyperparameters.copy(), trial_id=t.trial_id, status=st_req)
                             t_arg.message = t.message
                             tags["end-with-copy"] += 1
+                        if declare:
+                            declare(t_arg.hyperparameters)
+                            # the retry, if any, carries the values as reported (the started ones plus the declared entry)
+                            mon.startvals[t.trial_id] = canon_vals(t_arg.hyperparameters.values)
+                        # the values the tuner reports: the stored trial takes them, `_record_values` hashes them again
+                        lines.append(dict(suite="oracle", op="end", id=int(t.trial_id), status=st_req,
+                                          values=canon_vals(t_arg.hyperparameters.values), hkey=hkey(o, t_arg.hyperparameters.values)))
                         try:
                             quiet(o.end_trial, t_arg)
                             res_s = "ok"
@@ -432,6 +467,8 @@ def scenario(sseed, kind, mode, res, crash_at=None, second=None, maxlen=60):
                             t2 = twin.trials[t.trial_id]
                             from keras_tuner.engine import trial as trial_module
                             t2c = trial_module.Trial(hyperparameters=t2.hyperparameters.copy(), trial_id=t2.trial_id, status=st_req)
+                            if declare:
+                                declare(t2c.hyperparameters)
                             try:
                                 quiet(twin.end_trial, t2c)
                             except RuntimeError:
@@ -456,6 +493,10 @@ def scenario(sseed, kind, mode, res, crash_at=None, second=None, maxlen=60):
                             tags["failed-at-limit"] += 1
                         sc = "-" if st_req != "COMPLETED" else fl_str(tr.score)
                         expect.append(f"ok score={sc} | {state_str(o)}")
+                        lines.append(dict(suite="oracle", op="vals", id=int(t.trial_id)))
+                        expect.append("vals " + canon_vals(tr.hyperparameters.values))
+                        lines.append(dict(suite="oracle", op="tried"))
+                        expect.append(tried_str(o))
                         mon.invariants(o)
                     else:
                         held = hold[w].trial_id if w in hold else None
@@ -466,7 +507,7 @@ def scenario(sseed, kind, mode, res, crash_at=None, second=None, maxlen=60):
                         lines.append(ln)
                         t = quiet(o.create_trial, w)
                         if t.status == "RUNNING" and held is None and not rq_before:
-                            ln["pop"] = dict(status="RUNNING", values=canon_vals(t.hyperparameters.values))
+                            ln["pop"] = dict(status="RUNNING", values=canon_vals(t.hyperparameters.values), hkey=hkey(o, t.hyperparameters.values))
                         else:
                             ln["pop"] = pop_doc()
                         if t.status == "RUNNING":
@@ -479,6 +520,8 @@ def scenario(sseed, kind, mode, res, crash_at=None, second=None, maxlen=60):
                             tags["answer-" + t.status] += 1
                             if t.status == "STOPPED":
                                 stopped.add(w)
+                        lines.append(dict(suite="oracle", op="tried"))
+                        expect.append(tried_str(o))
                         mon.on_create(o, w, t, held, rq_before, n_before)
                         mon.invariants(o)
                         maxpar = max(maxpar, len(o.ongoing_trials))
